@@ -212,3 +212,31 @@ impl RealIssuer {
         }
     }
 }
+
+// ---------------------------------------------------------------------------------------------
+/// An identity contract that is NOT the library's: it serves whatever claim the environment put
+/// under an id (the verifier must not trust the identity contract to file claims correctly).
+#[contract]
+pub struct MockIdentity;
+
+#[contracttype]
+pub enum MIKey {
+    Ids(u32),
+    Claim(BytesN<32>),
+}
+
+#[contractimpl]
+impl MockIdentity {
+    pub fn serve(e: &Env, listed_under_topic: u32, claim_id: BytesN<32>, claim: Claim) {
+        let mut ids: Vec<BytesN<32>> = e.storage().persistent().get(&MIKey::Ids(listed_under_topic)).unwrap_or(Vec::new(e));
+        ids.push_back(claim_id.clone());
+        e.storage().persistent().set(&MIKey::Ids(listed_under_topic), &ids);
+        e.storage().persistent().set(&MIKey::Claim(claim_id), &claim);
+    }
+    pub fn get_claim_ids_by_topic(e: &Env, topic: u32) -> Vec<BytesN<32>> {
+        e.storage().persistent().get(&MIKey::Ids(topic)).unwrap_or(Vec::new(e))
+    }
+    pub fn get_claim(e: &Env, claim_id: BytesN<32>) -> Claim {
+        e.storage().persistent().get(&MIKey::Claim(claim_id)).unwrap()
+    }
+}
